@@ -47,7 +47,7 @@ CHECKS = {
  "C20": e1("DESIGN.md §4 C20", "Fragment sequences (<=3 over F, <=4 core, <=3 over core + exotic syntax), URL strings in three positions (<=3 fragments, and <=3 tail fragments after five well-formed prefixes), link attribute lists <=3 (<=2 under every combination of the five link options x rel / target admission), against every policy of the family inside the property's class plus Strict and UGC (with the del/ins proviso): Sanitize(Sanitize(x)) == Sanitize(x). Style declarations (<=2 over C10's alphabet) under every in-class style rule set and a permissive value pattern. Two known findings (rel/target order, two mirror-image policy shapes) are listed in known_findings.jsonl."),
 }
 
-# additions after rounds 7 of the seeded-change work (appended to the texts above)
+# additions after rounds 7 and 8 of the seeded-change work (appended to the texts above)
 ADD = {
  "C01": " Comment bodies with entity-encoded terminators and raw-text elements holding an unfinished comment are in the fragment alphabets.",
  "C03": " Two policies whose scheme pattern also matches the empty string (relative URLs not allowed) are in the family.",
@@ -64,6 +64,19 @@ ADD = {
  "C20": " A policy admitting ftp / tel by scheme pattern only is in the URL layers (ten prefixes incl. ftp://e.x/ and tel:1; %26 among the tails).",
 }
 for k, v in ADD.items():
+    t = list(CHECKS[k]); t[4] = t[4] + v; CHECKS[k] = tuple(t)
+ADD8 = {
+ "C02": " data-* names are judged by HTML's definition of a custom data attribute (XML-compatible, no upper case), not by the code's; a builder call OnElements() with no element is in the rare-forms policy.",
+ "C03": " Custom checks are applied by the oracle to the URL in the form a browser gives it (slash-less special-scheme URLs name a host); a deny-list check is in the family.",
+ "C05": " Second oracle: an independent transcription of the HTML standard's script-data states (escaped / double-escaped) delimits the script element when it is the document's first tag; script bodies <=4 (thorough 6) over 14 fragments that move between those states. Third known finding: x/net's tokenizer leaves the escaped state too early.",
+ "C07": " A policy whose pattern-bound enum / handler style rules accept values no default handler accepts is in the family.",
+ "C10": " The browser-model splitter knows unquoted url tokens (a bad url ends at the first ')'); case folding in the oracle is ASCII-only; an accept-all handler and matchers for words with k / s are in the family; every sequence <=2 of clean declarations is also written with CSS white space before it and after its final ';' (a style attribute on several lines).",
+ "C11": " target values are compared with _blank ASCII case-insensitively, as a browser does (target=_BLANK is in the alphabet, as is href=https:/e.x/p).",
+ "C12": " A zero-value Policy{} with both forcing options set before the first initialising call is in the family.",
+ "C14": " The streaming entry point is driven into a bytes.Buffer and into a destination without WriteString.",
+ "C18": " End to end each hostile fragment is also tried alone, glued with a space on either side of a good value and between two comments; url tokens are delimited in the text as written, so that an escaped quote at the start of a url (url(\\22http://../x)) counts as part of the URL.",
+}
+for k, v in ADD8.items():
     t = list(CHECKS[k]); t[4] = t[4] + v; CHECKS[k] = tuple(t)
 
 built = [i for i in ids if i in CHECKS and os.environ.get("ONLY", i) ]
